@@ -5,11 +5,13 @@ V = os.path.dirname(os.path.dirname(os.path.abspath(__file__)))
 sys.path.insert(0, os.path.join(V, "harness"))
 import specs, na
 props = [json.loads(l) for l in open(os.path.join(V, "properties.jsonl"))]
+# only checks verified on the unchanged tree (listed in harness/ready.txt) are claimed
+ready = set(open(os.path.join(V, "harness", "ready.txt")).read().split())
 checks = []
 napp = []
 for p in props:
     pid = p["id"]
-    if pid in specs.SPECS:
+    if pid in specs.SPECS and pid in ready:
         s = specs.SPECS[pid]
         kind = s.get("scope", "unit")
         text = s.get("level_text") or (
@@ -28,7 +30,7 @@ for p in props:
             technique="solver-based bounded symbolic execution of the real code (LLVM IR + z3), native replay of counterexamples",
         ))
     else:
-        napp.append(dict(property_id=pid, reason=na.NA.get(pid, "check not built yet; see DESIGN.md")))
+        napp.append(dict(property_id=pid, reason=na.NA.get(pid, "check under construction, not yet verified on the unchanged tree: not claimed; see DESIGN.md section 4 for the plan")))
 m = dict(
     version=1,
     setup_cmd="./engine/build.sh",
